@@ -31,19 +31,20 @@ RandBV(w, seed, salt) == Norm(w, [i \in 1..NL(w) |-> H3(seed, salt, i) % 256])
 \* boundary values of width w, indexed 1..NBound
 NBound == 12
 Pat(w, byte) == Norm(w, [i \in 1..NL(w) |-> byte])
+\* ordered by importance: a run may use only the first n of them
 Bound(w, i) ==
     CASE i = 1 -> Zero(w)
       [] i = 2 -> One(w)
       [] i = 3 -> Ones(w)                                   \* -1 / UMAX
       [] i = 4 -> ShrN(Ones(w), 1, FALSE)                   \* SMAX
       [] i = 5 -> ShlN(One(w), w - 1)                       \* SMIN
-      [] i = 6 -> FromNat(w, 2)
-      [] i = 7 -> Pat(w, 85)                                \* 0x55..
-      [] i = 8 -> Pat(w, 170)                               \* 0xAA..
-      [] i = 9 -> Sub(Zero(w), FromNat(w, 2))               \* -2
-      [] i = 10 -> FromNat(w, 127)
-      [] i = 11 -> FromNat(w, 128)
-      [] i = 12 -> FromNat(w, 255)
+      [] i = 6 -> FromNat(w, 128)
+      [] i = 7 -> Pat(w, 170)                               \* 0xAA..
+      [] i = 8 -> FromNat(w, 255)
+      [] i = 9 -> FromNat(w, 2)
+      [] i = 10 -> Pat(w, 85)                               \* 0x55..
+      [] i = 11 -> Sub(Zero(w), FromNat(w, 2))              \* -2
+      [] i = 12 -> FromNat(w, 127)
 
 ----------------------------------------------------------------------------
 \* memory: addresses are 32-bit, stored as the 4-limb tuple of the address
